@@ -119,6 +119,7 @@ fn dispatch(pool: &TaskPool, id: usize, gate: Arc<Gate>, obs: &Arc<Mutex<PoolObs
 
 pub fn pool_body(sc: PoolScenario, obs: Arc<Mutex<PoolObs>>) {
     ctl::window(false);
+    ctl::spurious(true); // waits may return unnotified (std permits it): a 1-cost deviation
     let pool = TaskPool::new();
     let mut gates: Vec<Arc<Gate>> = Vec::new();
     let mut next = 0usize;
@@ -288,6 +289,7 @@ pub struct SrvObs {
 
 pub fn srv_body(sc: SrvScenario, obs: Arc<Mutex<SrvObs>>) {
     ctl::window(false);
+    ctl::spurious(true); // waits may return unnotified (std permits it): a 1-cost deviation
     let srv = start_server();
     ctl::settle();
     let shared: SharedObs = Arc::new(Mutex::new(Obs::default()));
@@ -456,7 +458,7 @@ impl Check for C08 {
     }
     fn rule(&self, tier: Tier) -> String {
         format!(
-            "(a) real TaskPool: initial state {{fresh, all 4 idle, 1/3/4 workers busy for ever, surplus workers idle in their timed wait, surplus workers whose 5 s idle timeout is due, surplus workers retired after 6 s of idleness}} x dispatch pattern {{one burst of 1,2,3,4,5,6,8 tasks; two bursts (1,4) (4,1) (2,3) (4,4) (3,3) separated by quiescence, the first burst's tasks finishing in between or not}}; every task records its start and then stays open on a harness gate; (b) real Server with N in {{1,4,5,6,8,32{}}} keep-alive connections sending one request each and staying open, in one burst or two; {} scenarios, explored for all schedules with at most {} deviations (strict costs), window = the burst; oracle at quiescence: every dispatched task has started / every connection has its response while all others are still open, each task started once, one open task per worker; non-trivial = all",
+            "(a) real TaskPool: initial state {{fresh, all 4 idle, 1/3/4 workers busy for ever, surplus workers idle in their timed wait, surplus workers whose 5 s idle timeout is due, surplus workers retired after 6 s of idleness}} x dispatch pattern {{one burst of 1,2,3,4,5,6,8 tasks; two bursts (1,4) (4,1) (2,3) (4,4) (3,3) separated by quiescence, the first burst's tasks finishing in between or not}}; every task records its start and then stays open on a harness gate; (b) real Server with N in {{1,4,5,6,8,32{}}} keep-alive connections sending one request each and staying open, in one burst or two; {} scenarios, explored for all schedules with at most {} deviations (strict costs; a spurious return from a condition-variable wait is one of the deviations), window = the burst; oracle at quiescence: every dispatched task has started / every connection has its response while all others are still open, each task started once, one open task per worker; non-trivial = all",
             if tier == Tier::Thorough { ",64" } else { "" }, items(tier).len(), if tier == Tier::Thorough { "3 (<= 2 tasks) / 2 (<= 6 tasks) / 1 (pool), 2 (server N<=5) / 1 (N<=8) / 0" } else { "2 (<= 3 tasks) / 1 (<= 6 tasks) / 0 (pool), 1 (server N<=5) / 0" }
         )
     }
